@@ -367,4 +367,69 @@ theorem monreqs_w1resp {m : Mon} {s s0 : St} {p : Obs} {r : Nat} (mr : MonReqs m
           rw [hq] at hk; cases hk
           exact rel.inWrite _ _ (Or.inl hpc) (Or.inr ⟨rfl, rfl⟩) ⟨rfl, rfl⟩ (by simp [rel.w1]) rel.ok
 
+/-! ### the transport Write of a response returns -/
+
+theorem monreqs_wretresp {m : Mon} {s s0 : St} {p : Obs} {r : Nat} {o : WOut} (mr : MonReqs m s) (i : Inv4 s)
+    (hp : p.shuttingDown = s.shuttingDown) (h : step0 s (.wret (.resp r) o) = some s0) :
+    MonReqs (m.book p (evOf (.wret (.resp r) o))) s0 := by
+  simp only [step0] at h
+  split at h
+  · cases h
+  · rename_i q hq
+    split at h
+    · cases h
+    · rename_i hpc
+      have hpc : q.pc = .wr := by simpa using hpc
+      cases o
+      · -- ok
+        cases h
+        refine mr.upd r ((fun k => { k with pc := .p2 }) ∘ (fun k => { k with responses := k.responses + 1 })) cancelFin
+          (fun q => { q with okWrites := q.okWrites + 1 }) ?_ ?_ ?_ ?_ id id ?_ ?_ ?_ ?_ (fun mt _ => cancelFin_rw mt) ?_ ?_
+        · simp [modCore, List.modify_modify_eq]
+        · simp [toP2, modCore, cancelReq_metas]
+        · simp [evOf, Mon.book, modR, Who.resp?]
+        · simp [modCore, evOf, Mon.book, modR, Who.resp?, mr.idx]
+        · simp [modCore]
+        · simp [modCore]
+        · simp [modCore]
+        · simp [modCore]
+        · intro k e _ hk; simp at hk
+        · intro q' k mt hq' hk hmt rel
+          rw [hq] at hk; cases hk
+          exact rel.inWrite _ _ (Or.inr (Or.inl hpc)) (Or.inr ⟨rfl, rfl⟩) ⟨rfl, rfl⟩ rel.w1 (by simp [rel.ok])
+      · -- broken
+        cases h
+        refine mr.upd r (fun k => { k with pc := .w2 .broken }) id id ?_ ?_ ?_ ?_ ?_ ?_ ?_ ?_ ?_ ?_ (fun _ _ => ⟨id, id⟩) ?_ ?_
+        · simp [modCore]
+        · simp [modCore]
+        · simp [evOf, Mon.book, Who.resp?]
+        · simp [modCore, evOf, Mon.book, Who.resp?, mr.idx]
+        · simp [evOf, Mon.book, Who.resp?]
+        · simp [evOf, Mon.book, Who.resp?]
+        · simp [modCore]
+        · simp [modCore]
+        · simp [modCore]
+        · simp [modCore]
+        · intro k e _ hk; simp [evOf, Mon.book, Who.resp?]
+        · intro q' k mt hq' hk hmt rel
+          rw [hq] at hk; cases hk
+          exact rel.inWrite _ _ (Or.inr (Or.inl hpc)) (Or.inl ⟨Or.inr ⟨_, rfl⟩, rfl⟩) ⟨rfl, rfl⟩ rel.w1 rel.ok
+      · -- rejected
+        cases h
+        refine mr.upd r (fun k => { k with pc := .p2 }) cancelFin id ?_ ?_ ?_ ?_ id id ?_ ?_ ?_ ?_
+          (fun mt _ => cancelFin_rw mt) ?_ ?_
+        · simp
+        · simp [toP2, cancelReq_metas]
+        · simp [evOf, Mon.book, Who.resp?]
+        · simp [evOf, Mon.book, Who.resp?, mr.idx]
+        · simp
+        · simp
+        · simp
+        · simp
+        · intro k e _ hk; simp at hk
+        · intro q' k mt hq' hk hmt rel
+          rw [hq] at hk; cases hk
+          exact rel.inWrite _ _ (Or.inr (Or.inl hpc)) (Or.inr ⟨rfl, rfl⟩) ⟨rfl, rfl⟩ rel.w1 rel.ok
+      · cases h
+
 end Conn
